@@ -45,6 +45,8 @@ Inductive pipe :=
 | PHot (h : hid)                       (* subject h `.observable()` (any of the four kinds) *)
 | PInner (h : hid)                     (* the inner plain Subject of h `.observable()` *)
 | PConn (k : kid)                      (* connectable k `.observable()` *)
+| PManual (s : nat)                    (* hand-driven source s: Observable::create(|o| store o); the driver emits on the stored observers *)
+| PRef (i : nat)                       (* the Observable VALUE i built once at the start of the scenario *)
 | POp (o : opk) (src : pipe) (others : list pipe).
 
 (* ------------------------------------------------------------------ kernel objects *)
@@ -157,14 +159,16 @@ Inductive reaction :=
 | RUnsubSelf                       (* Subscription::unsubscribe on the subscriber's own handle (if it exists yet) *)
 | RUnsub (k : nat)                 (* ... on another handle *)
 | REmit (h : hid) (e : ev)         (* subject.next/error/complete from inside the callback *)
-| RSub (k : nat) (p : pipe).       (* subscribe handle k from inside the callback *)
+| RSub (k : nat) (p : pipe)        (* subscribe handle k from inside the callback *)
+| RPush (s : nat) (e : ev).        (* the hand-driven source s emits e (re-entrantly, from inside the callback) *)
 
 Inductive action :=
 | DSub (k : nat) (p : pipe) (rs : list (nat * reaction))   (* subscribe handle k; reaction on the i-th callback *)
 | DUnsub (k : nat)
 | DEmit (h : hid) (e : ev)
 | DConnect (k : kid) (x : nat)      (* publish(k).connect() -> connection handle x *)
-| DDisconnect (x : nat).
+| DDisconnect (x : nat)
+| DPush (s : nat) (e : ev).         (* the hand-driven source s calls next/error/complete on every observer it was ever given *)
 
 (* uid of a user subscriber: a driver handle or a dynamically created window/group recorder *)
 Inductive uid := UTop (k : nat) | UChild (j : nat).
